@@ -28,8 +28,10 @@ MANIFEST = dict(
          "string keys, no empty sub-dict and no genuine sentinel string the HDF5 writer followed by the reader is "
          "the identity (None preserved at any depth), with counter-example theorems showing each guard is needed "
          "('/' in a key, empty dict, the string '__none__', non-str key); all three extension spellings select the "
-         "documented writer and anything else is rejected. Partial: structured arrays lose their field names in JSON "
-         "and np.bool_ becomes a string (both stated as `_partial` theorems = findings). Tie: the real save_to_json / "
+         "documented writer and anything else is rejected. Partial: structured arrays other than posterior_samples lose "
+         "their field names in JSON (`_partial` theorem = known finding); np.bool_ -> str, '/' keys and the sentinel "
+         "string are outside the property's quantifier: they stay in the model, in `_partial`/`_fails_without` "
+         "theorems and in the model==code boundary stream, the oracle makes no demand on them. Tie: the real save_to_json / "
          "save_dict_to_hdf5 / FlowSampler.save_results / save_kwargs write generated trees (every value type of "
          "results and kwargs, live-point dtypes, 0-d/empty arrays, depth <= 4) and REAL result dictionaries of a "
          "tiny standard and a tiny importance run in json/hdf5/h5; files are read with json.load / h5py and compared "
@@ -268,16 +270,18 @@ def json_in_scope(v):
 
 def h5_in_scope(v, top=True):
     """the HDF5 oracle's domain: the value types that occur in results (no arbitrary objects, no np.str_, no
-    embedded NUL, ints that fit 64 bits, homogeneous str-or-number sequences), keys non-empty str other than '.'"""
+    embedded NUL, ints that fit 64 bits, homogeneous str-or-number sequences), keys = non-empty str without '/'
+    other than '.', no string equal to the None sentinel (adversarial keys/strings are not result value types:
+    they are exercised in the boundary stream for model == code only)"""
     if isinstance(v, dict):
-        return all(isinstance(k, str) and not isinstance(k, np.str_) and k.strip("/") not in ("", ".")
+        return all(isinstance(k, str) and not isinstance(k, np.str_) and k not in ("", ".") and "/" not in k
                    and "\x00" not in k and h5_in_scope(x, False) for k, x in v.items())
     if v is None or isinstance(v, (bool, np.bool_, float, np.integer, np.floating)):
         return True
     if isinstance(v, np.str_):
         return False
     if isinstance(v, str):
-        return "\x00" not in v
+        return "\x00" not in v and v != cd.SENTINEL
     if isinstance(v, int):
         return -2 ** 63 <= v < 2 ** 63
     if isinstance(v, np.ndarray):
@@ -298,7 +302,8 @@ def h5_in_scope(v, top=True):
             return False
         strs = [isinstance(x, str) for x in flat]
         if any(strs):
-            return all(s or x is None for s, x in zip(strs, flat)) and all("\x00" not in x for x in flat if isinstance(x, str))
+            return all(s or x is None for s, x in zip(strs, flat)) and \
+                all("\x00" not in x and x != cd.SENTINEL for x in flat if isinstance(x, str))
         return all(not isinstance(x, int) or isinstance(x, bool) or abs(x) < 2 ** 53 for x in flat)
     return False
 
@@ -390,14 +395,14 @@ def check_h5(run, obj, case, site="save_dict_to_hdf5", oracle=True):
 
     def findings(o):
         _, r2, e2 = impl_h5(run, o)
-        m2 = cd.Mismatch(site, cd.has_slash_key(o))
+        m2 = cd.Mismatch(site)
         if e2 is not None:
             m2.add(cd.find_h5_culprit(o) or "raised", [], f"{type(e2).__name__}: {e2}")
         else:
             cd.same_h5(o, r2, [], m2)
         return m2
 
-    mm = cd.Mismatch(site, cd.has_slash_key(obj))
+    mm = cd.Mismatch(site)
     if exc is not None:
         mm.add("unreadable" if out == "unreadable" else (cd.find_h5_culprit(obj) or "raised"), [],
                f"{type(exc).__name__}: {exc}")
@@ -467,7 +472,7 @@ def check_results(run, d, post, init_post, file_ext, extension, case, oracle=Tru
             if fmt == "hdf5":
                 run.add(f"enc results {sel} " + cd.tokens(full), "hdf5 " + cd.exc_tok(exc), case)
                 if oracle and h5_in_scope(full):
-                    mm = cd.Mismatch("FlowSampler.save_results[hdf5]", cd.has_slash_key(full))
+                    mm = cd.Mismatch("FlowSampler.save_results[hdf5]")
                     mm.add(cd.find_h5_culprit(full) or "raised", [], f"{type(exc).__name__}: {exc}")
                     run.report(mm, case)
             elif fmt == "json":
@@ -496,7 +501,7 @@ def check_results(run, d, post, init_post, file_ext, extension, case, oracle=Tru
         r = cd.read_h5(written)
         run.add(f"enc results {sel} " + cd.tokens(full), "hdf5 ok " + cd.h5_tokens(r), case)
         if oracle and h5_in_scope(full):
-            mm = cd.Mismatch("FlowSampler.save_results[hdf5]", cd.has_slash_key(full))
+            mm = cd.Mismatch("FlowSampler.save_results[hdf5]")
             cd.same_h5(full, r, [], mm)
             run.report(mm, case)
     shutil.rmtree(os.path.dirname(written), ignore_errors=True)
